@@ -59,3 +59,22 @@ package boltdb
 //@   ensures [C18:trimmed-seek-never-mislabels] err == nil ==> labelled(bucketOf(c.Cursor), b)
 //@   ensures [C18:trimmed-seek-of-a-stored-round-returns-that-round] err == nil && hasKey(bucketOf(c.Cursor), chain.be64(round)) ==> b.Round == round
 //@   ensures [C18:trimmed-seek-previous-is-round-minus-one-or-fails] err == nil && c.store.requiresPrevious ==> prevLinked(bucketOf(c.Cursor), b)
+
+// ---- C13: one bolt transaction per stored beacon (atomicity of a transaction is bbolt's, assumed) --------------------
+//@ func (*trimmedStore).Put(b, ctx, beacon) (err)
+//@   props C13
+//@   ensures [C13:a-beacon-is-stored-by-at-most-one-transaction] ntx(b.db) == old(ntx(b.db)) || ntx(b.db) == old(ntx(b.db)) + 1
+
+//@ func (*trimmedStore).Put$1(tx) (err)
+//@   props C13 C18
+//@   requires nput(tx) == 0 && beacon != nil
+//@   ensures [C13,C18:the-transaction-writes-exactly-the-signature-under-the-round-key] err == nil ==> nput(tx) == 1 && bytesEq(putKey(tx, beaconBucket), chain.be64(beacon.Round)) && bytesEq(putVal(tx, beaconBucket), beacon.Signature)
+
+//@ func (*BoltStore).Put(b, ctx, beacon) (err)
+//@   props C13
+//@   ensures [C13:a-beacon-is-stored-by-at-most-one-transaction] ntx(b.db) == old(ntx(b.db)) || ntx(b.db) == old(ntx(b.db)) + 1
+
+//@ func (*BoltStore).Put$1(tx) (err)
+//@   props C13
+//@   requires nput(tx) == 0 && beacon != nil
+//@   ensures [C13:the-transaction-writes-one-record-under-the-round-key] err == nil ==> nput(tx) == 1 && bytesEq(putKey(tx, beaconBucket), chain.be64(beacon.Round))
